@@ -26,7 +26,7 @@ def _foreign(rng_seed, kind, D=None):
         D = D or 2
         for d, o in ((D + 1, {}), (D, {"tol_fun": r.choice([1e-1, 1e-5, 1.0]), "tol_mesh": r.choice([1e-3, 1e-8]), "n_search": r.choice([32, 256]),
                                        "noise_final_samples": r.choice([3, 20]), "max_fun_evals": r.choice([40, 90])})):
-            o = dict(o, display="off")
+            o = dict(o, display=r.choice(["off", "iter", "full"]))      # another display level than the instance under test
             b = BADS(lambda x: float(np.sum(np.asarray(x) ** 2)), np.full(d, 0.3), np.full(d, -4.0), np.full(d, 6.0), np.full(d, -2.0), np.full(d, 3.0), options=o)
         if r.random() < 0.4:
             try:
@@ -54,6 +54,7 @@ def _foreign(rng_seed, kind, D=None):
             sp["options"].pop("random_seed", None)
             sp["seed"] = None
         fun, x0, lb, ub, plb, pub, cons, opts, aux = gen.build(sp)
+        opts["display"] = r.choice(["off", "iter", "full"])
         if sp["seed"] is None:
             opts.pop("random_seed", None)
         from pybads import BADS
@@ -68,7 +69,14 @@ def _foreign(rng_seed, kind, D=None):
 def _job(args):
     """Run spec after a foreign history; returns (call log, result fields, seeding discipline)."""
     import logging, warnings
-    logging.disable(logging.CRITICAL); warnings.filterwarnings("ignore")
+    # logging stays enabled (the process-wide "BADS" logger level is state that instances share), its output goes to a null handler
+    logging.disable(logging.NOTSET)
+    for _lg in (logging.getLogger(), logging.getLogger("BADS")):
+        for _h in list(_lg.handlers):
+            _lg.removeHandler(_h)
+        _lg.addHandler(logging.NullHandler())
+    logging.getLogger("BADS").propagate = False
+    warnings.filterwarnings("ignore")
     import numpy as np
     spec, pre, mid, hseed = args
     for i, k in enumerate(pre):
@@ -131,7 +139,7 @@ def _other_process(spec, hashseed):
     import json, subprocess, sys
     from ..proto import VERIF
     code = ("import sys, json, os; sys.path.insert(0, %r); sys.path.insert(0, os.environ.get('VERIF_REPO', '/repo'))\n"
-            "import logging, warnings; logging.disable(logging.CRITICAL); warnings.filterwarnings('ignore')\n"
+            "import warnings; warnings.filterwarnings('ignore')\n"
             "from harness.props import c07\n"
             "r = c07._job((json.loads(sys.stdin.read()), [], [], 0))\n"
             "print('RESULT' + json.dumps({'calls': r['calls'], 'out': r['out']}))\n") % VERIF
